@@ -1,6 +1,7 @@
 import Duckling.Model.Compile
 import Duckling.Lemmas.Simple
 import Duckling.Lemmas.Seq
+import Duckling.Lemmas.DelayLine
 /-
   C01 — plain Ducky/Flipper scripts pass through unchanged.
 
@@ -20,8 +21,14 @@ import Duckling.Lemmas.Seq
   * `C01_script`                 a script all of whose lines pass through (each emitting its own lines, leaving warnings and
                                   prints alone and yielding no signal, from every state) compiles to the concatenation of those lines, in order,
                                   with no warning and no print — for scripts of any length.
-  DELAY / DEFAULT_DELAY (whose argument goes through the expression scanner) and ALTCHAR are covered by the correspondence, by
-  C04's evaluator theorems and by `C02_every_emission_legal`, not by a line theorem here — `partial` in that respect.
+  * `C01_delay_line` / `C01_default_delay_line`   **DELAY / DEFAULT_DELAY**: the argument of these two goes through the character scanner
+                                  and the evaluator; for ANY non-empty string of digits (any length below the model's big-number guard, leading
+                                  zeros, any blanks around it, any variables in scope, any casing of the word) the line emits `DELAY n` /
+                                  `DEFAULT_DELAY n` with `n` the number the digits denote, yields no signal, and leaves the state alone (DEFAULT_DELAY
+                                  records the value in `$DEFAULT_DELAY`) — by the scanner theorem `lex_digits` (a digit string is ONE number token:
+                                  induction over the scanner's character loop) and `tokenize_digits`;
+  * `C01_delay_dispatch`         the words DELAY, DEFAULT_DELAY, DEFAULTDELAY in any casing are dispatched to those two classes.
+  ALTCHAR is covered by `C02_every_emission_legal` and the correspondence, not by a line theorem here.
 -/
 namespace Duckling.Props.C01
 open Duckling
@@ -216,5 +223,36 @@ theorem C01_table_facts :
     (∀ c ∈ Generated.palette, c.cname ∈ ["Alt", "Ctrl", "Shift", "Gui"] →
         c.isBlock = false ∧ c.strip = true ∧ c.argReq = .allowed ∧ c.tokenize = false ∧ c.argType = .str ∧ c.flipperOnly = false ∧
         "run_compile" ∉ c.hooks ∧ "verify_args" ∉ c.hooks) := by decide
+
+/-- DELAY with a digit-string argument passes through, written as the number it denotes -/
+theorem C01_delay_line (child : Option ChildFn) (ctx : Ctx) (word a ds : Str) (line : Nat) (st : St)
+    (hd : startsWith ['$'] (upper word) = false) (ha : a.isEmpty = false) (hds : strip a = ds)
+    (hne : ds ≠ []) (hall : ds.all isDigitC = true) (hsmall : Val.hugeInt (digitsVal ds) = false) :
+    compileSimple child ctx delayRow word line (some a) none st =
+      .ok { st := st, out := [upper word ++ [' '] ++ natToStr (digitsVal ds)], sig := .normal } :=
+  delay_line child ctx word a ds line st hd ha hds hne hall hsmall
+
+theorem C01_default_delay_line (child : Option ChildFn) (ctx : Ctx) (word a ds : Str) (line : Nat) (st : St)
+    (hd : startsWith ['$'] (upper word) = false) (ha : a.isEmpty = false) (hds : strip a = ds)
+    (hne : ds ≠ []) (hall : ds.all isDigitC = true) (hsmall : Val.hugeInt (digitsVal ds) = false)
+    (hsys : assocHas st.env.sys sysVarDefaultDelay = true) :
+    compileSimple child ctx defaultDelayRow word line (some a) none st =
+      .ok { st := { st with env := { st.env with sys := assocSet st.env.sys sysVarDefaultDelay (.int (digitsVal ds)) } },
+            out := [upper word ++ [' '] ++ natToStr (digitsVal ds)], sig := .normal } :=
+  default_delay_line child ctx word a ds line st hd ha hds hne hall hsmall hsys
+
+/-- the delay words reach the delay classes (with `C01_dispatch`) -/
+theorem C01_delay_dispatch :
+    Generated.palette.find? (claims "DELAY") = some delayRow ∧
+    Generated.palette.find? (claims "DEFAULT_DELAY") = some defaultDelayRow ∧
+    Generated.palette.find? (claims "DEFAULTDELAY") = some defaultDelayRow := by decide
+
+/-- non-vacuity: `007` is a digit string denoting 7, and 7 is written `7` -/
+example : ("007".toList).all isDigitC = true ∧ digitsVal "007".toList = 7 ∧ natToStr 7 = "7".toList := by decide
+
+/-- the big-number guard of the model is far away from any delay one would write -/
+theorem C01_delay_guard (n : Nat) (h : n < 10 ^ 1000) : Val.hugeInt (n : Int) = false := by
+  simp only [Val.hugeInt, Int.natAbs_natCast, ge_iff_le, decide_eq_false_iff_not, Nat.not_le]
+  exact h
 
 end Duckling.Props.C01
